@@ -546,7 +546,7 @@ func c40Configs(c *vk.Ctx, emit func(c40Cfg)) {
 		}
 		encaps = []string{"none", "ipip", "vxlan", "both"}
 		hepsH = hepLayouts(pol)
-		ewH = []ew{{"RETURN", "allow"}, {"DROP", "deny"}}
+		ewH = []ew{{"RETURN", "allow"}}
 		hepsW = hepsH
 		maW = allow2
 	}
@@ -568,12 +568,13 @@ func c40Configs(c *vk.Ctx, emit func(c40Cfg)) {
 		}
 	}
 	// family W
+	encapsW := []string{"none", "both"}
 	for _, kind := range kinds {
 		for _, e2h := range e2hs {
 			for _, fa := range allow2 {
 				for _, ma := range maW {
 					for _, wl := range []string{"deny", "allow"} {
-						for _, enc := range encaps {
+						for _, enc := range encapsW {
 							for _, h := range hepsW {
 								emit(c40Cfg{Kind: kind, FailIn: "one", FailOut: "two", E2H: e2h, FilterAllow: fa, MangleAllow: ma, Encap: enc,
 									HEP: h.hep, Untracked: h.u, PreDNAT: h.p, Normal: h.n, Forward: h.f, Wl: wl})
@@ -796,7 +797,7 @@ func TestVerif_C40(t *testing.T) {
 			}
 		}
 
-		workers := 6
+		workers := c.Pick(6, 8)
 		ch := make(chan c40Cfg, 64)
 		var wg sync.WaitGroup
 		var mu sync.Mutex
